@@ -14,9 +14,17 @@ def gen(rng, k):
     seedkey = rng.random() < 0.6
     wrong_client = seedkey and rng.random() < 0.25      # the client computes wrong keys for the whole history
     same = dict(address=rng.choice([0x92000003, 0x10, rng.getrandbits(32)]), direct=1)
-    for i in range(rng.randint(1, 6)):
-        fail = rng.choice(['none', 'none', 'refuse', 'respond_false', 'absent'])
-        if rng.random() < 0.5:
+    # directed histories first (k < 16): each kind of failure, with and without seed/key, followed by a well-formed read and a
+    # well-formed write on the same object ("the next well-formed read or write succeeds")
+    directed = None
+    if k < 16:
+        seedkey = bool(k & 1)
+        wrong_client = False
+        directed = [['refuse', 'respond_false', 'absent', 'respond_false'][(k >> 1) & 3], 'none', 'none'] if k < 8 else \
+                   ['none', ['refuse', 'respond_false', 'absent', 'refuse'][(k >> 1) & 3], 'none', 'none']
+    for i in range(len(directed) if directed else rng.randint(1, 6)):
+        fail = directed[i] if directed else rng.choice(['none', 'none', 'refuse', 'respond_false', 'absent'])
+        if (rng.random() < 0.5) if not directed else (i != len(directed) - 1):
             n = rng.choice([1, 3, 7])
             op = dict(kind='read', count=n, size=1, signed=False, raw=True, server_data=[rng.randrange(256) for _ in range(n)], timeout=1, gap=3.5, **same)
         else:
